@@ -5,6 +5,8 @@ LEVEL = "proof"
 
 
 def run(ctx):
+    # leaf translator: theorems re-checked against the Gallina translation of the current Go source
+    generic.leaf_obligations(ctx, ['Step'])
     generic.standard(ctx, "Props_C08", "c08", "replace", lists=("M", "MM", "ILL"), ledger="known/C08.ledger")
     ctx.coverage["explanation"] = (
         "Coq (Replace.v): template language specification, regexp's expand/extract scanner, coregex's expand (expand_cx_eq_std for all "
